@@ -247,6 +247,11 @@ class Feature(tuple, metaclass=abc.ABCMeta):
         return feature
 
 
+def identical(left: 'dsl.Feature', right: 'dsl.Feature') -> bool:
+    """Python-level (structural) identity of two features: same type and pairwise identical members."""
+    return left.__class__ is right.__class__ and tuple.__eq__(left, right)
+
+
 def featurize(handler: typing.Callable[..., typing.Any]) -> typing.Callable[..., typing.Any]:
     """Decorator for forcing function arguments to operable features.
 
@@ -792,7 +797,7 @@ class Comparison(Predicate):
 
         def __bool__(self):
             if self.operator is Equal:
-                return hash(self.left) == hash(self.right)
+                return identical(self.left, self.right)
             if self.operator is LessThan:
                 return repr(self.left) < repr(self.right)
             raise RuntimeError(f'Unexpected Pythonic comparison using {self.operator}')
@@ -866,7 +871,7 @@ class Equal(Comparison, Infix):
             This doesn't reflect mathematical commutativity - order of potential sub-expression
             operands matters.
         """
-        return hash(self.left) == hash(self.right)
+        return identical(self.left, self.right)
 
 
 class NotEqual(Comparison, Infix):
